@@ -233,6 +233,7 @@ MUTANTS = [
     ('C11', 'revert-starttls-drain', ('revert', 'cb57a86'), 'C11.c'),
     ('C12', 'revert-connectless-disconnect', ('revert', 'c71db07'), 'C12.a'),
     ('C12', 'revert-send-error-discards-input', ('revert', '35da0df'), 'C12.g'),
+    ('C10', 'revert-preen-silent', ('revert', '21c361f'), 'C10.f'),
 ]
 
 # behaviour-preserving edits: the check of the property must stay silent
